@@ -75,6 +75,10 @@ def build_crate(workdir, kspecs):
     seen_mods = set()
     for uid, ks in kspecs:
         for at in ks.get("attrs", []):
+            key = (at["file"], at["fn"], at.get("within"), tuple(at["lines"]))
+            if key in seen_mods:
+                continue
+            seen_mods.add(key)
             sf = sources.src(at["file"])
             loc = sf.find_fn(at["fn"], at.get("within"), at.get("nth", 0))
             indent = re.match(r"[ \t]*", sf.text[loc["sig_start"]:]).group(0)
